@@ -876,6 +876,9 @@ func main() {
 	case "chan":
 		runChanSuite(a, out)
 		return
+	case "glue":
+		runGlueSuite(a, out)
+		return
 	}
 
 	var ms *monitors
